@@ -17,7 +17,7 @@ PROPERTY = 'C11'
 LEVEL = 'exploration'
 RULE = ('cross product ping_interval(8, incl. fractional and (interval,grace)) '
         'x ping_timeout(4) x max_http_buffer_size(3) x allow_upgrades(2) x '
-        'transports(3) x cookie(6 forms) x connect-handler outcome(9) x open '
+        'transports(3) x cookie(6 forms) x connect-handler outcome(17: None, True, False, numbers incl. 1 and 1.0 which equal True, strings, containers, raise) x open '
         'kind(polling, websocket, JSONP) x server(threaded, asyncio) [+ '
         'websocket driver unavailable]; in every other cell the connect handler '
         'also sends a message to the new sid; thorough = the whole grid, quick = '
@@ -39,7 +39,8 @@ MB = [1, 100, 10 ** 6]
 AU = [True, False]
 TR = [None, 'polling', 'websocket']
 CK = ['none', 'str', 'dict', 'flagT', 'flagF', 'callable']
-OUT = [None, True, False, 0, '', 'no', {'e': 1}, [1], 'raise']
+OUT = [None, True, False, 0, '', 'no', {'e': 1}, [1], 'raise',
+       1, 1.0, 2, -1, 0.0, [], {}, 'True']
 KIND = ['polling', 'websocket', 'jsonp']
 SRV = ['T', 'A']
 DEFAULT = (25, 20, 10 ** 6, True, None, 'none', None, 'polling')
